@@ -1,5 +1,6 @@
 import Xp.Base.JsonIO
 import Xp.Model.C11
+import Xp.Model.C11Hook
 /-
 C11 driver: scenario JSON -> model run -> canonical observation (same shape as
 harness/main/c11.go prints). Only parsing and printing live here.
@@ -138,24 +139,111 @@ def checkCrd (xrd : Xrd) (c : Crd) (mach : List (String × Schema)) (scope : Str
   if !(c.versions.all fun v => (keys Xp.Gen.xcrdStatusProps).all fun k => (lookup k (statusOf v).props).isSome) then some "C11:machinery-missing" else
   none
 
-def handler : Handler := fun scn =>
+/-! the world of an admission request (Model/C11Hook) -/
+
+def classOf : String → ErrClass
+  | "notFound" => .notFound
+  | "alreadyExists" => .alreadyExists
+  | "conflict" => .conflict
+  | "invalid" => .invalid
+  | "forbidden" => .forbidden
+  | "timeout" => .timeout
+  | "bare" => .bare
+  | "transport" => .transport
+  | "deadline" => .deadline
+  | _ => .internal
+
+def classStr : ErrClass → String
+  | .notFound => "notFound"
+  | .alreadyExists => "alreadyExists"
+  | .conflict => "conflict"
+  | .invalid => "invalid"
+  | .forbidden => "forbidden"
+  | .timeout => "timeout"
+  | .internal => "internal"
+  | .bare => "bare"
+  | .transport => "transport"
+  | .deadline => "deadline"
+
+def actOf (j : Json) : Option (Nat × Act) :=
+  let k := nat j "k"
+  let n := str j "name"
+  match str j "do" with
+  | "bump" => some (k, .bump n)
+  | "delete" => some (k, .delete n)
+  | "create" => some (k, .create n)
+  | "sync" => some (k, .sync n)
+  | "err" => some (k, .err (classOf (str j "class")))
+  | _ => none
+
+/-- the API server's validation of a CRD: by scope and by a property name it refuses under spec -/
+def acceptOf (srv : Json) : Crd → Bool := fun c =>
+  let p := str srv "rejectProp"
+  !((bool srv "rejectXR" && c.scope == "Cluster") || (bool srv "rejectClaim" && c.scope == "Namespaced")) &&
+  (p == "" || !(c.versions.any fun v => (lookup p (prop v.schema "spec").props).isSome))
+
+def verdictStr : Verdict → String
+  | .allowed => "allowed"
+  | .invalid _ => "invalid"
+  | .crdError w e => "crdError:" ++ w ++ ":" ++ errStr e
+  | .rejected w e => "rejected:" ++ w ++ ":" ++ classStr e
+  | .panic w => "panic:" ++ w
+
+def callStr (x : Req × Outcome × Option Resp) : String :=
+  let verb := match x.1 with
+    | .get _ => "get"
+    | .update dry _ _ => if dry then "update" else "update"
+    | .create dry _ => if dry then "create" else "create"
+  let res := match x.2.2 with
+    | some (.found _) => "found"
+    | some .ok => "ok"
+    | some (.err e) => classStr e
+    | none => "crashed"
+  verb ++ ":" ++ x.1.name ++ ":" ++ res ++ (if x.1.harmless then "" else ":PERSISTED")
+
+/-- run one admission request in the world `wj` of the scenario -/
+def runHook (accept : Crd → Bool) (wj : Json) (p : Prog Req Resp Verdict) : String × List String :=
+  let w0 := World.initial (strs wj "exists")
+  let env := scriptEnv ((arr wj "acts").filterMap actOf)
+  let sem := hookSem accept
+  let v := (runE sem env Plan.allOk 0 p w0).2
+  ((v.map verdictStr).getD "crashed", (callLogE sem env Plan.allOk 0 p w0).map callStr)
+
+/-- one request of the sequence: derivations, validation, the two admission decisions -/
+def stepObs (scn : Json) : List (String × Json) × Option String :=
   let xrd := xrdOf (obj scn "xrd")
   let old : Option Xrd := if has scn "old" then some (xrdOf (obj scn "old")) else none
   let srv := obj scn "server"
-  let server : Crd → Bool := fun c => if c.scope == "Cluster" then !(bool srv "rejectXR") else !(bool srv "rejectClaim")
+  let accept := acceptOf srv
   let xr := forXR xrd
   let claim := forClaim xrd
   let upd := old.map fun o => validateUpdate xrd o
-  let out := Json.mkObj [
+  let (admC, callsC) := runHook accept (obj srv "worldC") (hookCreate xrd)
+  let (admU, callsU) := match old with
+    | some o => runHook accept (obj srv "worldU") (hookUpdate xrd o)
+    | none => ("", [])
+  let out := [
     ("xr", crdObs xr),
     ("claim", crdObs claim),
+    ("xrRepeat", Json.bool true),
     ("validate", strsJson (validate xrd)),
     ("update", match upd with | some l => strsJson l | none => .null),
-    ("admitCreate", .str (admissionStr (admissionCreate xrd server))),
-    ("admitUpdate", .str (match old with | some o => admissionStr (admissionUpdate xrd o server) | none => ""))]
+    ("admitCreate", .str admC),
+    ("callsCreate", strsJson callsC),
+    ("admitUpdate", .str admU),
+    ("callsUpdate", strsJson callsU)]
   let bad : Option String :=
     (match xr with | .ok c => checkCrd xrd c (xrSpecMachinery xrd) "Cluster" | _ => none) <|>
     (match claim with | .ok c => checkCrd xrd c (claimSpecMachinery xrd) "Namespaced" | _ => none)
-  .ok (out, bad.isNone, bad.getD "")
+  (out, bad)
+
+/-- the scenario's own request, then the `more` requests: the model is per request (nothing is
+carried from one to the next), which is what exposes state the implementation carries over -/
+def handler : Handler := fun scn =>
+  let (out, bad) := stepObs scn
+  let more := (arr scn "more").map stepObs
+  let moreJson := Json.arr (more.map fun (o, _) => Json.mkObj (o ++ [("more", Json.arr #[])])).toArray
+  let bad := more.foldl (fun b (_, x) => b <|> x) bad
+  .ok (Json.mkObj (out ++ [("more", moreJson)]), bad.isNone, bad.getD "")
 
 end Xp.C11
